@@ -23,6 +23,7 @@ type cand struct {
 	name string
 	user bool
 	slow bool // worth a long solver timeout (derived from an ensures clause)
+	real bool // derived from a [real] ensures clause
 	eval func(s *State, it Term) Term
 }
 
@@ -1008,6 +1009,10 @@ func (fx *FuncCtx) execLoop(pre *State, ld *loopDesc) Flow {
 			if !ok {
 				continue
 			}
+			if en.Tag != "" && !fx.tagActive(en.Tag) {
+				continue // e.g. [real] clauses are only meaningful in the real pass
+			}
+			isRealClause := isRealTag(en.Tag)
 			// look through implications: P ==> forall(...)
 			var antecedents []ast.Expr
 			for {
@@ -1050,7 +1055,7 @@ func (fx *FuncCtx) execLoop(pre *State, ld *loopDesc) Flow {
 					return c
 				}
 				mk := func(name string, lo, hi func(c Term, env *specEnv) ast.Expr) {
-					cands = append(cands, cand{name: fmt.Sprintf("ensures%d@%s:%s", ei+1, lname, name), slow: true, eval: func(s *State, it Term) Term {
+					cands = append(cands, cand{name: fmt.Sprintf("ensures%d@%s:%s", ei+1, lname, name), slow: true, real: isRealClause, eval: func(s *State, it Term) Term {
 						c := getC(s, it)
 						env := &specEnv{fx: fx, cur: s, old: fx.entry, binds: map[string]sval{"__c": {c, nil}}, entryParams: true, pos: ld.node.Pos()}
 						q := &ast.CallExpr{Fun: call.Fun, Args: []ast.Expr{call.Args[0], lo(c, env), hi(c, env), call.Args[3]}}
@@ -1064,7 +1069,7 @@ func (fx *FuncCtx) execLoop(pre *State, ld *loopDesc) Flow {
 					oi := oi
 					same := &ast.CallExpr{Fun: ast.NewIdent("same"), Args: []ast.Expr{ox, &ast.CallExpr{Fun: ast.NewIdent("old"), Args: []ast.Expr{ox}}}}
 					mkU := func(name string, lo, hi ast.Expr) {
-						cands = append(cands, cand{name: fmt.Sprintf("ensures%d@%s:unchanged%d-%s", ei+1, lname, oi, name), slow: true, eval: func(s *State, it Term) Term {
+						cands = append(cands, cand{name: fmt.Sprintf("ensures%d@%s:unchanged%d-%s", ei+1, lname, oi, name), slow: true, real: isRealClause, eval: func(s *State, it Term) Term {
 							c := getC(s, it)
 							env := &specEnv{fx: fx, cur: s, old: fx.entry, binds: map[string]sval{"__c": {c, nil}}, entryParams: true, pos: ld.node.Pos()}
 							q := &ast.CallExpr{Fun: call.Fun, Args: []ast.Expr{call.Args[0], lo, hi, same}}
@@ -1092,6 +1097,18 @@ func (fx *FuncCtx) execLoop(pre *State, ld *loopDesc) Flow {
 				return fx.specBool(&specEnv{fx: fx, cur: s, old: fx.entry, loop: lf, it: &it, pos: ld.node.Pos()}, inv.Expr)
 			}})
 		}
+	}
+
+	// the real pass starts from the candidates that survived the first pass (plus the user's and
+	// those derived from [real] clauses); everything is re-proved, this only prunes the search
+	if fx.real && fx.keepOnly != nil {
+		var cs []cand
+		for _, c := range cands {
+			if c.user || c.real || fx.keepOnly[c.name] {
+				cs = append(cs, c)
+			}
+		}
+		cands = cs
 	}
 
 	// --- Houdini ------------------------------------------------------------
